@@ -4,7 +4,10 @@ use std::{
     marker::PhantomData,
 };
 
+#[cfg(not(anydb_verif))]
 use parking_lot::RwLockReadGuard;
+#[cfg(anydb_verif)]
+use rawdb::verif::locks::RwLockReadGuard;
 use rawdb::{Region, RegionMetadata};
 
 use crate::{AnyStoredVec, BUFFER_SIZE, HEADER_OFFSET, VecIndex, VecValue, likely};
